@@ -283,3 +283,36 @@ Proof.
   intros H. unfold bnth, bslice, btake, bskip. rewrite nth_firstn_lt by lia. rewrite nth_skipn_add.
   f_equal. lia.
 Qed.
+
+(* ---------- unfolding eat_chunk / settle ---------- *)
+Lemma eat_chunk_unfold {X} (F : fmt X) (s : ist X) c :
+  i_fin s = false ->
+  eat_chunk F s c =
+  let pos := i_pos s + flen c in
+  let s1 := mkIst pos (capture_regs [] c pos (i_regs s)) (i_next s) false (i_checks s) (i_ext s) in
+  match f_post F s1 with
+  | (s2, Some e) => (s2, Some e)
+  | (s2, None) =>
+    match settle eat_fuel F c (ids (i_regs s)) s2 with
+    | (s3, Some e) => (s3, Some e)
+    | (s3, None) => run_callbacks F (newly_complete (complete_ids (i_regs s)) (i_regs s3)) s3
+    end
+  end.
+Proof.
+  intros Hf. unfold eat_chunk, do_capture. destruct s as [p r n fi ch x]. cbn in Hf. subst fi.
+  cbn [i_fin set_pos i_pos i_regs i_next i_checks i_ext set_regs]. reflexivity.
+Qed.
+
+Lemma settle_done {X} (F : fmt X) fuel c known (s : ist X) :
+  new_names known (i_regs s) = [] -> settle fuel F c known s = (s, None).
+Proof. intros H. destruct fuel; cbn [settle]; rewrite H; reflexivity. Qed.
+
+Lemma settle_step {X} (F : fmt X) fuel c known (s : ist X) n ns :
+  new_names known (i_regs s) = n :: ns -> i_fin s = false ->
+  settle (S fuel) F c known s =
+  let s1 := set_regs s (capture_regs (n :: ns) c (i_pos s) (i_regs s)) in
+  match f_post F s1 with
+  | (s2, Some e) => (s2, Some e)
+  | (s2, None) => settle fuel F c (ids (i_regs s1)) s2
+  end.
+Proof. intros H Hf. cbn [settle]. rewrite H. unfold do_capture. rewrite Hf. reflexivity. Qed.
